@@ -74,7 +74,7 @@ fn sorted_tick(mut t: TickOut) -> TickOut {
     t
 }
 
-pub const C36_PROGRAMS: [&str; 12] = [
+pub const C36_PROGRAMS: [&str; 13] = [
     "ordered_batch",
     "unordered_batch_observed",
     "keyed_batch",
@@ -83,6 +83,7 @@ pub const C36_PROGRAMS: [&str; 12] = [
     "keyed_snapshot",
     "toplevel_fold",
     "two_input_tick",
+    "three_input_tick",
     "batch_and_snapshot",
     "batch_and_hooked_fold_snapshot",
     "cluster_batch",
@@ -266,6 +267,28 @@ fn build_inner(name: &str, n: usize) -> Entry {
                     p.1.send_many(b.clone());
                     let all: Vec<(Vec<u32>, Vec<u32>)> = p.2.collect().await;
                     all.into_iter().map(|(x, y)| vec![(0, x), (1, y)]).collect()
+                },
+            };
+            Entry { sim: Box::new(sim), lanes, inputs }
+        }
+        "three_input_tick" => {
+            // n = total number of items: a gets n-2 of them (1,2,..), b = [21], c = [31]
+            let node = flow.process::<()>();
+            let ports = progs::three_input_tick(&node);
+            let a: Vec<u32> = (1..=(n as u32 - 2)).collect();
+            let (b, c) = (vec![21u32], vec![31u32]);
+            let inputs = format!("a.send_many({a:?}); b.send_many({b:?}); c.send_many({c:?})");
+            let lanes = vec![(0, LaneSpec::Ordered(a.clone())), (1, LaneSpec::Ordered(b.clone())), (2, LaneSpec::Ordered(c.clone()))];
+            let sim = Sim {
+                name: "three_input_tick",
+                compiled: flow.sim().compiled(),
+                ports,
+                body: async move |p: &(progs::Tx<u32>, progs::Tx<u32>, progs::Tx<u32>, progs::Rx<((Vec<u32>, Vec<u32>), Vec<u32>)>)| -> Obs {
+                    p.0.send_many(a.clone());
+                    p.1.send_many(b.clone());
+                    p.2.send_many(c.clone());
+                    let all: Vec<((Vec<u32>, Vec<u32>), Vec<u32>)> = p.3.collect().await;
+                    all.into_iter().map(|((x, y), z)| vec![(0, x), (1, y), (2, z)]).collect()
                 },
             };
             Entry { sim: Box::new(sim), lanes, inputs }
